@@ -66,6 +66,8 @@ pub enum HEv {
     KeepAliveQuery { tag: u8, id: ConnectionId, result: bool, at: Duration },
     PollClose { tag: u8, id: ConnectionId, at: Duration },
     LocalProtocols { tag: u8, id: ConnectionId, added: bool, protos: Vec<String> },
+    /// the handler's advertised list actually changed (whatever path applied it)
+    ProtocolsApplied { tag: u8, id: ConnectionId, list: Vec<String> },
     RemoteProtocols { tag: u8, id: ConnectionId, added: bool, protos: Vec<String> },
     ListenProtocol { tag: u8, id: ConnectionId, list: Vec<String> },
     InboundStream { tag: u8, id: ConnectionId, proto: String },
@@ -111,6 +113,9 @@ pub enum HCmd {
     OpenStream { proto: String, hold: Hold },
     DropStreams,
     SetProtocols(Vec<String>),
+    /// the same change, but applied inside `ConnectionHandler::poll` (true) or on the next
+    /// `on_connection_event` (false) instead of in `on_behaviour_event`
+    SetProtocolsLater(Vec<String>, bool),
     ReportRemote { add: bool, protos: Vec<String> },
     /// emit `NotifyBehaviour(Echo)` so that routing back to the right field can be checked
     Echo(u64),
@@ -222,6 +227,8 @@ impl Probe {
             held: vec![],
             pending_outbound: 0,
             waker: None,
+            deferred_in_poll: None,
+            deferred_on_event: None,
         }
     }
 }
@@ -372,6 +379,8 @@ pub struct ProbeHandler {
     pub held: Vec<(Stream, bool)>,
     pub pending_outbound: usize,
     pub waker: Option<Waker>,
+    pub deferred_in_poll: Option<Vec<String>>,
+    pub deferred_on_event: Option<Vec<String>>,
 }
 
 impl ProbeHandler {
@@ -409,6 +418,10 @@ impl ConnectionHandler for ProbeHandler {
         if self.detail() {
             hlog(&self.log, HEv::Poll { tag: self.tag, id: self.id, busy: self.busy(), keep_alive: self.keep_alive, at: elapsed() });
         }
+        if let Some(p) = self.deferred_in_poll.take() {
+            hlog(&self.log, HEv::ProtocolsApplied { tag: self.tag, id: self.id, list: p.clone() });
+            self.protocols = p;
+        }
         if let Some(e) = self.out.pop_front() {
             if let ConnectionHandlerEvent::ReportRemoteProtocols(p) = &e {
                 let (add, set) = match p {
@@ -442,7 +455,12 @@ impl ConnectionHandler for ProbeHandler {
                 });
             }
             HCmd::DropStreams => self.held.clear(),
-            HCmd::SetProtocols(p) => self.protocols = p,
+            HCmd::SetProtocols(p) => {
+                hlog(&self.log, HEv::ProtocolsApplied { tag: self.tag, id: self.id, list: p.clone() });
+                self.protocols = p
+            }
+            HCmd::SetProtocolsLater(p, true) => self.deferred_in_poll = Some(p),
+            HCmd::SetProtocolsLater(p, false) => self.deferred_on_event = Some(p),
             HCmd::ReportRemote { add, protos } => {
                 let set: HashSet<StreamProtocol> = protos.into_iter().filter_map(|p| StreamProtocol::try_from_owned(p).ok()).collect();
                 self.out.push_back(ConnectionHandlerEvent::ReportRemoteProtocols(if add { ProtocolSupport::Added(set) } else { ProtocolSupport::Removed(set) }));
@@ -455,6 +473,10 @@ impl ConnectionHandler for ProbeHandler {
     }
 
     fn on_connection_event(&mut self, event: ConnectionEvent<ProbeUpgrade, ProbeUpgrade, (), Hold>) {
+        if let Some(p) = self.deferred_on_event.take() {
+            hlog(&self.log, HEv::ProtocolsApplied { tag: self.tag, id: self.id, list: p.clone() });
+            self.protocols = p;
+        }
         match event {
             ConnectionEvent::FullyNegotiatedInbound(f) => {
                 let (proto, stream) = f.protocol;
